@@ -20,7 +20,7 @@ fixes/C45-verify-block-root.diff (the block hash tree root is taken from the val
 | … and it never alters existing good shares | `repair_never_alters_good_shares` (abstract storage behaviour; refinement by the storage server is C22) |
 | a recoverable, unhealthy file gets a repair attempt, whatever the number of servers holding the good shares (seed C45-d) | `recoverable_unhealthy_repair_attempted` |
 | the post-repair results describe the grid after the repair (seed C45-c) | `post_repair_healthy_implies_N_good` |
-| count-shares-good / corrupt-share lists of `_format_results` | `healthy_iff_N_good` (count); the corrupt / incompatible lists are correspondence only (`fmt` lines) |
+| count-shares-good / corrupt-share lists of `_format_results` | `healthy_iff_N_good` (count), `corrupt_shares_listed` (the corrupt / incompatible lists and their counts) |
 | check without verification believes the servers | by definition of `ServerResult.verified` for verify=False; correspondence + monitor only |
 -/
 namespace Tahoe.C45
@@ -186,6 +186,32 @@ example :
     let pre : List ServerResult := [⟨0, [0], [], [], true⟩, ⟨1, [1], [], [], true⟩, ⟨2, [], [2], [], true⟩]
     gatherRepairResults 3 4 pre [(3, 3)] = ⟨false, true, 3⟩ ∧
     gatherRepairResults 3 4 pre [(3, 3), (2, 2)] = ⟨true, true, 4⟩ := by decide
+
+/-- **corrupt_shares_listed**: the corrupt (incompatible) share list of a check names exactly the (server, share)
+    pairs some server's verification classified as corrupt (incompatible), and `count-corrupt-shares` is its length. -/
+theorem corrupt_shares_listed (k n : Nat) (rs : List ServerResult) :
+    (∀ s sh, (s, sh) ∈ corruptLocators rs ↔ ∃ r ∈ rs, r.server = s ∧ sh ∈ r.corrupt) ∧
+    (∀ s sh, (s, sh) ∈ incompatibleLocators rs ↔ ∃ r ∈ rs, r.server = s ∧ sh ∈ r.incompatible) ∧
+    (formatResults k n rs).countCorrupt = (corruptLocators rs).length ∧
+    (formatResults k n rs).countIncompatible = (incompatibleLocators rs).length := by
+  refine ⟨?_, ?_, ?_, ?_⟩
+  · intro s sh
+    simp only [corruptLocators, List.mem_flatMap, List.mem_map, List.mem_eraseDups, Prod.mk.injEq]
+    constructor
+    · rintro ⟨r, hr, x, hx, e1, e2⟩; exact ⟨r, hr, e1, e2 ▸ hx⟩
+    · rintro ⟨r, hr, e1, hx⟩; exact ⟨r, hr, sh, hx, e1, rfl⟩
+  · intro s sh
+    simp only [incompatibleLocators, List.mem_flatMap, List.mem_map, List.mem_eraseDups, Prod.mk.injEq]
+    constructor
+    · rintro ⟨r, hr, x, hx, e1, e2⟩; exact ⟨r, hr, e1, e2 ▸ hx⟩
+    · rintro ⟨r, hr, e1, hx⟩; exact ⟨r, hr, sh, hx, e1, rfl⟩
+  · simp [formatResults, corruptLocators, List.length_flatMap]
+  · simp [formatResults, incompatibleLocators, List.length_flatMap]
+
+example :
+    corruptLocators [⟨0, [0], [3, 3], [], true⟩, ⟨2, [], [1], [5], true⟩] = [(0, 3), (2, 1)] ∧
+    incompatibleLocators [⟨0, [0], [3, 3], [], true⟩, ⟨2, [], [1], [5], true⟩] = [(2, 5)] ∧
+    (formatResults 1 2 [⟨0, [0], [3, 3], [], true⟩, ⟨2, [], [1], [5], true⟩]).countCorrupt = 2 := by decide
 
 /-- **recoverable_unhealthy_repair_attempted**: `_maybe_repair` starts a repair exactly when fewer than N distinct
     good share numbers were found; in particular a file that is recoverable (≥ k distinct good shares) but not healthy
